@@ -10,7 +10,7 @@ Events
     ("tick",)               fire the next virtual timer (one T_CheckCamGen expiry)
     ("rep", p, kind, arg)   advance p ms (firing every check due on the way, each one checked), then deliver a
                             position report time-stamped "now" whose dynamics are changed by (kind, arg):
-                            none | h i (heading := H[i]) | s i (speed := S[i]) | p i (north offset := PN[i] m) |
+                            none | h i (heading := menu h[i]) | s i (speed) | p i (north offset, m) | e i (east offset, m) |
                             miss f (report without field f)
     ("gap", g)              advance g ms without any report
     ("role", x)             VAM only, clustering manager attached: VRU role off / on (idle)
@@ -36,39 +36,63 @@ from mc.worlds import facilities as F
 
 LEVEL = "model_checking"
 
-H = [355.0, 359.0, 3.0, 3.1, 7.2]          # 359.0 -> 3.0 is exactly 4.0 deg across the wrap, 359.0 -> 3.1 is 4.1
-S = [5.0, 5.5, 5.51, 6.02]                 # 5.0 -> 5.5 exactly 0.50, 5.0 -> 5.51 and 5.51 -> 6.02 are 0.51
-PN = [0.0, 4.0, 4.1, 8.2]                  # metres north of the base position
-BASE_LAT, BASE_LON = 41.0, 2.0
-_PHI = math.radians(BASE_LAT)
-_M = CR.WGS84_A * (1 - CR.WGS84_E2) / (1 - CR.WGS84_E2 * math.sin(_PHI) ** 2) ** 1.5
-DEG_PER_M = 1.0 / math.radians(1.0) / _M
+# Dynamics menus.  "std": a moving vehicle at 41N 2E.  "zero": stop-and-go at the origin of every scale - the state
+# carried by the last CAM / VAM is exactly 0 (speed 0.0, heading 0.0, latitude 0.0, longitude 0.0: all *falsy* in
+# Python) or sits on the 0/360 seam, and every threshold step is taken from there in both directions.
+MENUS = {
+    "std": dict(base=(41.0, 2.0), init=dict(h=1, s=0, p=0, e=0),
+                h=[355.0, 359.0, 3.0, 3.1, 7.2],          # 359.0 -> 3.0 is exactly 4.0 deg across the wrap, 359.0 -> 3.1 is 4.1
+                s=[5.0, 5.5, 5.51, 6.02],                 # 5.0 -> 5.5 exactly 0.50, 5.0 -> 5.51 and 5.51 -> 6.02 are 0.51
+                p=[0.0, 4.0, 4.1, 8.2],                   # metres north of the base position
+                e=[0.0, 4.0, 4.1]),                       # metres east of the base position
+    "zero": dict(base=(0.0, 0.0), init=dict(h=0, s=0, p=0, e=0),
+                 h=[0.0, 4.0, 4.1, 356.0, 355.9, 360.0, 359.95],   # from north: +4.0 / +4.1, -4.0 / -4.1 across the seam, 360.0 == 0.0
+                 s=[0.0, 0.5, 0.51, 1.02],                          # standstill, then pulling away by exactly 0.50 / 0.51
+                 p=[0.0, 4.0, 4.1, -4.1],                           # equator: north and south of latitude 0.0
+                 e=[0.0, 4.0, 4.1, -4.1]),                          # prime meridian: east and west of longitude 0.0
+}
+DIMS = ("h", "s", "p", "e")
 MISSABLE = ("track", "speed", "lat", "lon", "time")
 ORIG_T_CHECK = F.ctm.T_CHECK_CAM_GEN      # configuration of the tree under test (T_CheckCamGen, ms)
 
 
-def mk_tpv(w, kind, arg):
-    tpv = {"class": "TPV", "mode": 3, "time": F.iso_ms(w.ms), "lat": BASE_LAT + PN[w.p] * DEG_PER_M, "lon": BASE_LON,
-           "track": H[w.h], "speed": S[w.s], "altHAE": 120.0, "epx": 2.0, "epy": 3.0, "epv": 4.0, "epd": 1.0}
+def _deg_per_m(lat):
+    phi = math.radians(lat)
+    s2 = math.sin(phi) ** 2
+    m = CR.WGS84_A * (1 - CR.WGS84_E2) / (1 - CR.WGS84_E2 * s2) ** 1.5
+    n = CR.WGS84_A / math.sqrt(1 - CR.WGS84_E2 * s2)
+    return 1.0 / math.radians(1.0) / m, 1.0 / math.radians(1.0) / (n * math.cos(phi))
+
+
+def mk_tpv(w, menu, kind, arg):
+    blat, blon = menu["base"]
+    dn, de = _deg_per_m(blat)
+    tpv = {"class": "TPV", "mode": 3, "time": F.iso_ms(w.ms), "lat": blat + menu["p"][w.p] * dn, "lon": blon + menu["e"][w.e] * de,
+           "track": menu["h"][w.h], "speed": menu["s"][w.s], "altHAE": 120.0, "epx": 2.0, "epy": 3.0, "epv": 4.0, "epd": 1.0}
     if kind == "miss":
         del tpv[arg]
     return tpv
 
 
 def _step_dyn(w, kind, arg):
-    if kind == "h":
-        w.h = arg
-    elif kind == "s":
-        w.s = arg
-    elif kind == "p":
-        w.p = arg
+    if kind in DIMS:
+        setattr(w, kind, arg)
 
 
-def _tpv_proj(tpv):
+def _tpv_proj(tpv, base=(0.0, 0.0)):
     if tpv is None:
         return None
-    return (tpv.get("track"), tpv.get("speed"), None if "lat" not in tpv else round((tpv["lat"] - BASE_LAT) * 1e7),
-            "lon" in tpv, "time" in tpv)
+    return (tpv.get("track"), tpv.get("speed"), None if "lat" not in tpv else round((tpv["lat"] - base[0]) * 1e7),
+            None if "lon" not in tpv else round((tpv["lon"] - base[1]) * 1e7), "time" in tpv)
+
+
+def _init_dyn(w, menu):
+    for k in DIMS:
+        setattr(w, k, menu["init"][k])
+
+
+def _dims(w):
+    return tuple(getattr(w, k) for k in DIMS)
 
 
 def _order(evs, seed):
@@ -94,7 +118,8 @@ def _decode(kind, sent, port, bad):
 # CAM
 # ------------------------------------------------------------------------------------------------------
 class CamModel:
-    def __init__(self, periods, dyns, delays=(0,), check_period=100, allow_stop=True, gaps=(), seed=0, first_delays=None):
+    def __init__(self, periods, dyns, delays=(0,), check_period=100, allow_stop=True, gaps=(), seed=0, first_delays=None, menu="std"):
+        self.menu = MENUS[menu]
         self.periods, self.dyns, self.delays = list(periods), [tuple(d) for d in dyns], list(delays)
         self.check_period, self.allow_stop, self.gaps, self.seed = check_period, allow_stop, list(gaps), seed
         self.first_delays = list(first_delays) if first_delays is not None else self.delays
@@ -109,7 +134,7 @@ class CamModel:
         w = F.FacWorld()
         w.add_cam()
         w.ref = CR.CamRules(100 if self.check_period is None else self.check_period)
-        w.h, w.s, w.p = 1, 0, 0
+        _init_dyn(w, self.menu)
         w.bad, w.cut, w.starts, w.last_n = [], False, 0, 0
         return w
 
@@ -126,7 +151,7 @@ class CamModel:
             evs.append(("start", self.delays[0]))       # start while active must be a no-op
         for p in self.periods:
             for kind, arg in self.dyns:
-                if kind in ("h", "s", "p") and getattr(w, kind) == arg:
+                if kind in DIMS and getattr(w, kind) == arg:
                     continue
                 evs.append(("rep", p, kind, arg))
         if w.ref.active:
@@ -162,7 +187,7 @@ class CamModel:
                 _p, kind, arg = ev[1], ev[2], ev[3]
                 w.advance_to(w.ms + ev[1], on_fire)
                 _step_dyn(w, kind, arg)
-                tpv = mk_tpv(w, kind, arg)
+                tpv = mk_tpv(w, self.menu, kind, arg)
                 n0 = len(w.sent)
                 w.report(w.cam_tm, tpv)
                 ref.on_report(w.ms, dict(tpv), w.ms if "time" in tpv else None)
@@ -187,7 +212,7 @@ class CamModel:
         return out
 
     def canon(self, w):
-        tm, ms = w.cam_tm, w.ms
+        tm, ms, base = w.cam_tm, w.ms, self.menu["base"]
         t = w.next_timer()
         phase = None if t is None else w.timer_ms(t) - ms
         rel = lambda v, cap: None if v is None else min(ms - v, cap)   # noqa: E731
@@ -195,11 +220,12 @@ class CamModel:
             impl = (tm._active, tm.t_gen_cam, tm._n_gen_cam_counter, min(tm._cam_count, 2), rel(tm._last_cam_time_ms, 5000),
                     rel(tm._last_lf_time_ms, 500), rel(tm._last_vlf_time_ms, 10000), rel(tm._last_special_time_ms, 500),
                     tm._last_cam_heading, tm._last_cam_speed,
-                    None if tm._last_cam_lat is None else round((tm._last_cam_lat - BASE_LAT) * 1e7), _tpv_proj(tm._current_tpv))
+                    None if tm._last_cam_lat is None else round((tm._last_cam_lat - base[0]) * 1e7),
+                    None if tm._last_cam_lon is None else round((tm._last_cam_lon - base[1]) * 1e7), _tpv_proj(tm._current_tpv, base))
         except AttributeError:   # refactored tree: fall back to the generic digest (finer states, still sound)
             impl = X.generic_canon({k: v for k, v in vars(tm).items() if k not in ("btp_router", "cam_coder", "logging", "_path_history")})
-        return (phase, len(w.pending_timers()), impl, w.ref.state(ms), w.h, w.s, w.p, _tpv_proj(w.ref.report),
-                _tpv_proj(w.ref.last_cam_report), w.cut, min(w.starts, 1))
+        return (phase, len(w.pending_timers()), impl, w.ref.state(ms), _dims(w), _tpv_proj(w.ref.report, base),
+                _tpv_proj(w.ref.last_cam_report, base), w.cut, min(w.starts, 1))
 
     def outcome(self, w, obs):
         return ("cam", w.last_n, w.ref.last_lf_ms == w.ref.last_cam_ms and w.last_n > 0, w.cam_tm.t_gen_cam, w.cut)
@@ -221,7 +247,8 @@ def mk_cam(*a):
 # VAM
 # ------------------------------------------------------------------------------------------------------
 class VamModel:
-    def __init__(self, periods, dyns, gaps=(), clustering=False, seed=0, start_gdt=None):
+    def __init__(self, periods, dyns, gaps=(), clustering=False, seed=0, start_gdt=None, menu="std"):
+        self.menu = MENUS[menu]
         self.periods, self.dyns, self.gaps = list(periods), [tuple(d) for d in dyns], list(gaps)
         self.clustering, self.seed = clustering, seed
         # start_gdt: absolute start time chosen so that generationDeltaTime(start) == start_gdt (wrap lattice); absolute
@@ -235,7 +262,7 @@ class VamModel:
         w = F.FacWorld(start_ms=start)
         w.add_vam(clustering=self.clustering)
         w.ref = VR.VamRules()
-        w.h, w.s, w.p = 1, 0, 0
+        _init_dyn(w, self.menu)
         w.bad, w.cut, w.last_n, w.idle = [], False, 0, False
         return w
 
@@ -245,7 +272,7 @@ class VamModel:
         evs = []
         for p in self.periods:
             for kind, arg in self.dyns:
-                if kind in ("h", "s", "p") and getattr(w, kind) == arg:
+                if kind in DIMS and getattr(w, kind) == arg:
                     continue
                 evs.append(("rep", p, kind, arg))
         evs += [("gap", g) for g in self.gaps]
@@ -271,7 +298,7 @@ class VamModel:
             kind, arg = ev[2], ev[3]
             w.advance_to(w.ms + ev[1])
             _step_dyn(w, kind, arg)
-            tpv = mk_tpv(w, kind, arg)
+            tpv = mk_tpv(w, self.menu, kind, arg)
             exc = None
             try:
                 w.report(w.vam_tm, tpv)
@@ -304,17 +331,17 @@ class VamModel:
         return out
 
     def canon(self, w):
-        tm, ms = w.vam_tm, w.ms
+        tm, ms, base = w.vam_tm, w.ms, self.menu["base"]
         try:
             last = tm.last_vam_generation_delta_time
             impl = (None if last is None else (F.its_ms(ms) - last.msec) % 65536, tm.t_genvam,
-                    tuple(round((x - b) * 1e7) for x, b in zip(tm.last_sent_position, (BASE_LAT, BASE_LON))),
+                    tuple(round((x - b) * 1e7) for x, b in zip(tm.last_sent_position, base)),
                     tm.last_vam_speed, tm.last_vam_heading,
                     None if tm.last_lf_vam_time is None else min(int(round((w.now - tm.last_lf_vam_time) * 1000)), 2001),
                     tm.is_first_vam, None if w.cluster is None else w.cluster.state.name)
         except AttributeError:
             impl = X.generic_canon({k: v for k, v in vars(tm).items() if k not in ("btp_router", "vam_coder", "logging")})
-        return (impl, w.ref.state(ms), w.h, w.s, w.p, _tpv_proj(w.ref.last_vam_report), w.cut, w.idle,
+        return (impl, w.ref.state(ms), _dims(w), _tpv_proj(w.ref.last_vam_report, base), w.cut, w.idle,
                 None if self.start_gdt is None else F.its_ms(ms) % 65536)
 
     def outcome(self, w, obs):
@@ -366,7 +393,7 @@ def _gdt_pipeline(args):
                 for which in ("cam", "vam"):
                     n += 1
                     w = F.FacWorld(start_ms=unix_ms, frac=fr)
-                    tpv = {"time": F.iso_ms(unix_ms), "lat": BASE_LAT, "lon": BASE_LON, "track": 10.0, "speed": 1.0}
+                    tpv = {"time": F.iso_ms(unix_ms), "lat": 41.0, "lon": 2.0, "track": 10.0, "speed": 1.0}
                     try:
                         if which == "cam":
                             w.add_cam()
@@ -401,7 +428,15 @@ def _parts(thorough, seed):
         ("cam_timing", ([20, 100, 250, 1000], D(none, ["s", 2], ["s", 0]), [0, 50, 99], None, True, [1200], seed), 7 if thorough else 5, 2),
         ("cam_thr_heading", ([100], D(none, *[["h", i] for i in range(5)]), [0], None, False, [], seed), 7 if thorough else 6, 2),
         ("cam_thr_speed", ([100], D(none, *[["s", i] for i in range(4)]), [0], None, False, [], seed), 7 if thorough else 6, 2),
-        ("cam_thr_position", ([100], D(none, *[["p", i] for i in range(4)]), [0], None, False, [], seed), 7 if thorough else 6, 2),
+        ("cam_thr_position", ([100], D(none, *[["p", i] for i in range(4)], *[["e", i] for i in range(3)]), [0], None, False, [], seed),
+         6 if thorough else 5, 2),
+        # stop-and-go / boundary values: the last CAM carries speed 0.0, heading 0.0 (or 360.0 / 359.95), latitude 0.0, longitude 0.0
+        ("cam_zero_heading", ([100], D(none, *[["h", i] for i in range(7)]), [0], None, False, [], seed, None, "zero"), 6 if thorough else 5, 2),
+        ("cam_zero_speed", ([100], D(none, *[["s", i] for i in range(4)]), [0], None, False, [], seed, None, "zero"), 7 if thorough else 6, 2),
+        ("cam_zero_position", ([100], D(none, *[["p", i] for i in range(4)], *[["e", i] for i in range(4)]), [0], None, False, [], seed, None, "zero"),
+         6 if thorough else 5, 2),
+        ("cam_stop_go", ([100, 250, 1000], D(none, ["s", 2], ["s", 0], ["s", 3], ["p", 1]), [0, 50], None, True, [], seed, None, "zero"),
+         7 if thorough else 5, 2),
         ("cam_missing", ([100, 1000], D(none, *[["miss", f] for f in MISSABLE], ["s", 2], ["h", 3]), [0], None, True, [], seed),
          6 if thorough else 4, 2),
         ("cam_fast_lf", ([100], D(["s", 2], ["s", 0], none), [0], None, False, [], seed), 14 if thorough else 10, 2),
@@ -421,6 +456,10 @@ def _parts(thorough, seed):
         ("vam_missing", ([20, 100, 1000], D(none, *[["miss", f] for f in MISSABLE]), [], False, seed), 5 if thorough else 4, 1),
         ("vam_idle", ([50, 100, 1000], D(none, ["s", 2], ["s", 0]), [2500], True, seed), 7 if thorough else 6, 2),
         ("vam_steady", ([1000, 100], D(none), [], False, seed), 400, 1),
+        ("vam_zero", ([20, 100], D(none, ["s", 2], ["s", 0], ["h", 2], ["h", 4], ["h", 5], ["h", 0], ["p", 2], ["p", 0], ["e", 3], ["e", 0]),
+                      [], False, seed, None, "zero"), 5 if thorough else 4, 2),
+        # the first VAM carries generationDeltaTime exactly 0 (first report on the wrap)
+        ("vam_wrap_100", ([100, 1000], D(none, ["s", 2], ["s", 0]), [], False, seed, 65536 - 100, "zero"), 9 if thorough else 7, 1),
         # absolute-time lattice: the spacing decision is taken on generationDeltaTime differences, so trajectories are
         # started shortly before a 65 536 ms wrap (no state merging over absolute time in these parts)
         ("vam_wrap_250", ([100, 1000], D(none), [], False, seed, 65536 - 250), 12 if thorough else 10, 1),
